@@ -1,6 +1,7 @@
 import Anysystem.Proofs.SnapshotThms
 import Anysystem.Props.C13
 import Anysystem.Props.C03
+import Anysystem.Proofs.R4
 /-!
 # C04 — The simulator's own execution is always among the model-checked ones
 
@@ -15,5 +16,18 @@ namespace Anysystem
 #check @C13_every_reduced_step_explored_partial
 #check @C03_ok_exhaustive_disabled
 #check @C03_evaluated_reachable
+
+/- R4 (partial: fault rates zero, no crash during the run): one simulator step that handles an event is a step of the
+   reference semantics enabled in the *reduced* sense (so the model checker, complete for reduced steps by C13/R2,
+   offers it), and the relation `TimedRel` between simulator and reference state is re-established; the relation holds
+   for a quiet simulator state (`timedRel_of_quiet`), implies equality of the process-visible projection
+   (`TimedRel.visible`), and the timer the simulator pops is never blocked in the reference state -/
+#check @sim_step_refines_partial
+#check @timedRel_of_quiet
+#check @TimedRel.visible
+#check @popped_timer_unblocked
+/- non-vacuity: a concrete `Sim Nat Ticks` state with a queued timer and message on which all hypotheses hold -/
+#check @R4Demo.demo_hyps
+#check @R4Demo.demo_step
 
 end Anysystem
